@@ -14,7 +14,8 @@ def setup():
     for pid in driver.PROPS:
         driver.load_prop(pid)
     print(f"setup ok: python {sys.version.split()[0]}, valida {valida.__version__} from {os.path.dirname(valida.__file__)}")
-    return 0
+    # the simulator itself, on a known bug (needs sys.settrace and sys.monitoring to behave)
+    return engine_selftest(40)
 
 
 def determinism(n=200, hashseeds=(1, 4242)):
@@ -48,6 +49,79 @@ def determinism(n=200, hashseeds=(1, 4242)):
     return 2 if bad else 0
 
 
+def engine_selftest(n=300):
+    """The simulator on a known bug: two callers deposit into one toy account
+    (read-modify-write without a lock).  The lost update must be found by the
+    seeded schedulers, the same seed must give the same event log, the recorded
+    decisions must replay to the same final state, and an operation-boundary
+    schedule must never lose an update."""
+    import os
+    from . import engine
+    from .engine import Engine, Monitor, RandomStrategy, PCT, Scripted
+    from .common import stream
+    from .toy import racy
+
+    toy_dir = os.path.dirname(os.path.abspath(racy.__file__)) + os.sep
+    engine.TRACE_DIRS = (engine.VALIDA_DIR, toy_dir)
+    try:
+        class W:  # a minimal world
+            pass
+
+        def exec_op(world, op):
+            if op[0] == "deposit":
+                return ("ok", world.acct.deposit(op[1]))
+            return ("ok", world.acct.audit())
+
+        programs = [[("deposit", 1), ("deposit", 1), ("audit",)], [("deposit", 10), ("deposit", 10), ("audit",)]]
+        lost = audits_failed = 0
+        bad = 0
+        for i in range(n):
+            for gran in ("line", "opcode"):
+                w = W()
+                w.acct = racy.Account(0)
+                r = stream(i, "sched")
+                strat = RandomStrategy(r, 0.2) if i % 2 else PCT(r, 2, 2, 60)
+                e = Engine(w, programs, exec_op, Monitor(), strat, mode="pre", granularity=gran)
+                e.run()
+                final = w.acct.balance
+                audit_ok = all(o[1] is not False for o in e.outcomes.values())
+                # same seed, same log
+                w2 = W()
+                w2.acct = racy.Account(0)
+                r2 = stream(i, "sched")
+                strat2 = RandomStrategy(r2, 0.2) if i % 2 else PCT(r2, 2, 2, 60)
+                e2 = Engine(w2, programs, exec_op, Monitor(), strat2, mode="pre", granularity=gran)
+                e2.run()
+                if e2.event_digest() != e.event_digest():
+                    print(f"engine selftest: seed {i} {gran}: NONDETERMINISM")
+                    bad += 1
+                # recorded decisions replay to the same state
+                w3 = W()
+                w3.acct = racy.Account(0)
+                e3 = Engine(w3, programs, exec_op, Monitor(), Scripted(e.decisions), mode="pre", granularity=gran)
+                e3.run()
+                if w3.acct.balance != final or e3.event_digest() != e.event_digest():
+                    print(f"engine selftest: seed {i} {gran}: replay diverged ({w3.acct.balance} != {final})")
+                    bad += 1
+                if final != 22:
+                    lost += 1
+                if not audit_ok:
+                    audits_failed += 1
+            # operation-boundary schedules never lose an update
+            w4 = W()
+            w4.acct = racy.Account(0)
+            e4 = Engine(w4, programs, exec_op, Monitor(), RandomStrategy(stream(i, "op"), 0.5), mode="op")
+            e4.run()
+            if w4.acct.balance != 22:
+                print(f"engine selftest: seed {i}: an operation-boundary schedule lost an update")
+                bad += 1
+        print(f"engine selftest: {2 * n} pre-emptive runs of a toy read-modify-write: lost update in {lost}, torn audit in {audits_failed}; "
+              f"same-seed logs identical, recorded decisions replay exactly, {n} operation-boundary runs never lose an update: {'FAIL' if bad or not lost or not audits_failed else 'ok'}")
+        return 2 if (bad or not lost or not audits_failed) else 0
+    finally:
+        engine.TRACE_DIRS = (engine.VALIDA_DIR,)
+
+
 def main(argv):
     what = argv[1] if len(argv) > 1 else "setup"
     if what == "setup":
@@ -55,5 +129,7 @@ def main(argv):
     if what == "determinism":
         n = int(argv[2]) if len(argv) > 2 else 200
         return determinism(n)
-    print("usage: ./check selftest setup|determinism [n]")
+    if what == "engine":
+        return engine_selftest(int(argv[2]) if len(argv) > 2 else 300)
+    print("usage: ./check selftest setup|determinism [n]|engine [n]")
     return 2
